@@ -411,6 +411,7 @@ func runP4(p *an.Prog, r *an.Result) {
 		})
 	}
 	r.Floor("reflect receivers", 10)
+	p4Elem(p, r)
 }
 
 // wrapperKindInvariant: v is a load of the `value` field of one of the
@@ -1796,4 +1797,255 @@ func allCallSites(p *an.Prog, v ssa.Value, pred func(arg ssa.Value, at ssa.Instr
 		}
 	}
 	return true
+}
+
+// ---------------------------------------------------------------------------
+// P13
+
+func init() {
+	register("P13", "the numeric accessors of reflect are called only on a value of the matching kind: Int on a signed integer, Uint on an unsigned one, Float on a float - established by a test of the value's kind (a case of a kind switch, CanInt/CanUint/CanFloat), by a conversion to a type of that class, or by the same test on a value found to have the same kind; each of them panics on any other kind", runP13)
+}
+
+func runP13(p *an.Prog, r *an.Result) {
+	roles := GetRoles(p)
+	classes := map[string]struct {
+		kinds map[int64]bool
+		can   string
+		what  string
+	}{
+		"(reflect.Value).Int":   {map[int64]bool{2: true, 3: true, 4: true, 5: true, 6: true}, "(reflect.Value).CanInt", "a signed integer"},
+		"(reflect.Value).Uint":  {map[int64]bool{7: true, 8: true, 9: true, 10: true, 11: true, 12: true}, "(reflect.Value).CanUint", "an unsigned integer"},
+		"(reflect.Value).Float": {map[int64]bool{13: true, 14: true}, "(reflect.Value).CanFloat", "a float"},
+	}
+	kindCallOn := func(k ssa.Value) ssa.Value {
+		if c := an.CallOf(k); c != nil && an.CallName(c) == "(reflect.Value).Kind" && len(c.Args) == 1 {
+			return c.Args[0]
+		}
+		return nil
+	}
+	same := func(a, b ssa.Value) bool { return a == b || sameRV(a, b) }
+	for _, fn := range p.Funcs {
+		if fn.Blocks == nil || isMainPkg(fn) || fn.Pkg == nil || p9OutOfScope(p, fn) != "" {
+			continue
+		}
+		name := roles.Label(fn)
+		an.EachInstr(fn, func(in ssa.Instruction) {
+			call, ok := in.(*ssa.Call)
+			if !ok {
+				return
+			}
+			cn := an.CallName(&call.Call)
+			cl, ok := classes[cn]
+			if !ok || len(call.Call.Args) != 1 {
+				return
+			}
+			rv := call.Call.Args[0]
+			r.Counts["numeric accessors"]++
+			construct := cn + " on " + describe(p, rv)
+			// (a) the value is the result of a conversion to a type of the class
+			if c := an.CallOf(rv); c != nil && an.CallName(c) == "(reflect.Value).Convert" && len(c.Args) == 2 {
+				okT := false
+				for _, o := range an.Origins(c.Args[1], an.StepValue) {
+					var tc *ssa.CallCommon
+					if ld, isLd := o.(*ssa.UnOp); isLd {
+						if g, isG := ld.X.(*ssa.Global); isG {
+							for _, pf := range p.Funcs {
+								an.EachInstr(pf, func(in2 ssa.Instruction) {
+									if st, ok := in2.(*ssa.Store); ok && st.Addr == ssa.Value(g) {
+										tc = an.CallOf(st.Val)
+									}
+								})
+							}
+						}
+					} else {
+						tc = an.CallOf(o)
+					}
+					if tc != nil && an.CallName(tc) == "reflect.TypeOf" {
+						if mi, isMI := tc.Args[0].(*ssa.MakeInterface); isMI {
+							if b, isB := mi.X.Type().Underlying().(*types.Basic); isB {
+								switch {
+								case cn == "(reflect.Value).Int" && b.Info()&types.IsInteger != 0 && b.Info()&types.IsUnsigned == 0,
+									cn == "(reflect.Value).Uint" && b.Info()&types.IsUnsigned != 0,
+									cn == "(reflect.Value).Float" && b.Info()&types.IsFloat != 0:
+									okT = true
+								}
+							}
+						}
+					}
+				}
+				if okT {
+					r.OK(name, construct, an.InstrPos(in), "the value was converted to a type of that class")
+					return
+				}
+			}
+			// values known to have the same kind as rv: a dominating Kind(x) != Kind(y) that failed
+			alike := []ssa.Value{rv}
+			for _, g := range an.GuardsAtInstr(in) {
+				b, ok := g.Cond.(*ssa.BinOp)
+				if !ok || !(b.Op == token.NEQ && !g.True || b.Op == token.EQL && g.True) {
+					continue
+				}
+				x, y := kindCallOn(b.X), kindCallOn(b.Y)
+				if x == nil || y == nil {
+					continue
+				}
+				if same(x, rv) {
+					alike = append(alike, y)
+				} else if same(y, rv) {
+					alike = append(alike, x)
+				}
+			}
+			pred := func(cond ssa.Value, taken bool) bool {
+				if !taken {
+					return false
+				}
+				if c := an.CallOf(cond); c != nil && an.CallName(c) == cl.can && len(c.Args) == 1 {
+					for _, a := range alike {
+						if same(c.Args[0], a) {
+							return true
+						}
+					}
+				}
+				b, ok := cond.(*ssa.BinOp)
+				if !ok || b.Op != token.EQL {
+					return false
+				}
+				for _, pair := range [][2]ssa.Value{{b.X, b.Y}, {b.Y, b.X}} {
+					k, isC := an.ConstInt(pair[1])
+					if !isC || !cl.kinds[k] {
+						continue
+					}
+					for _, ko := range an.Origins(pair[0], an.StepValue) {
+						if x := kindCallOn(ko); x != nil {
+							for _, a := range alike {
+								if same(x, a) {
+									return true
+								}
+							}
+						}
+					}
+				}
+				return false
+			}
+			if an.AllPathsGuarded(call.Block(), pred) {
+				r.OK(name, construct, an.InstrPos(in), "every path here has found the value (or one of the same kind) to be "+cl.what)
+			} else {
+				r.Bad(name, construct, an.InstrPos(in), fmt.Sprintf("%s calls %s on a value not known to be %s on every path: reflect panics for any other kind (a *reflect.ValueError, which no recover boundary converts)", an.FuncName(fn), cn, cl.what))
+			}
+		})
+	}
+	r.Floor("numeric accessors", 6)
+}
+
+// ---------------------------------------------------------------------------
+// P4 (second part): the zero Value that Elem() of a nil pointer or nil interface yields
+
+func p4Elem(p *an.Prog, r *an.Result) {
+	roles := GetRoles(p)
+	for _, fn := range p.Funcs {
+		if fn.Blocks == nil || isMainPkg(fn) || fn.Pkg == nil || p9OutOfScope(p, fn) != "" {
+			continue
+		}
+		name := roles.Label(fn)
+		an.EachInstr(fn, func(in ssa.Instruction) {
+			ec, ok := in.(*ssa.Call)
+			if !ok || an.CallName(&ec.Call) != "(reflect.Value).Elem" || len(ec.Call.Args) != 1 {
+				return
+			}
+			x := ec.Call.Args[0]
+			// every method called on the result (through phis and local cells) that panics on the zero Value
+			seen := map[ssa.Value]bool{}
+			var uses []*ssa.Call
+			// where the Elem() result joins other values (a phi), the tests that count are those on the
+			// way to the join: the block the result arrives from
+			anchorOf := map[*ssa.Call]*ssa.BasicBlock{}
+			var walk func(v ssa.Value, depth int, anchor *ssa.BasicBlock)
+			walk = func(v ssa.Value, depth int, anchor *ssa.BasicBlock) {
+				if seen[v] || depth > 4 || v.Referrers() == nil {
+					return
+				}
+				seen[v] = true
+				for _, u := range *v.Referrers() {
+					switch y := u.(type) {
+					case *ssa.Call:
+						n := an.CallName(&y.Call)
+						if strings.HasPrefix(n, "(reflect.Value).") && len(y.Call.Args) > 0 && y.Call.Args[0] == v && reflectValuePanicsOnZero[strings.TrimPrefix(n, "(reflect.Value).")] {
+							uses = append(uses, y)
+							anchorOf[y] = anchor
+						}
+					case *ssa.Phi:
+						a2 := anchor
+						if a2 == nil {
+							for i, e := range y.Edges {
+								if e == v {
+									a2 = y.Block().Preds[i]
+								}
+							}
+						}
+						walk(y, depth+1, a2)
+					case *ssa.Store:
+						if al, ok := y.Addr.(*ssa.Alloc); ok && y.Val == v && al.Referrers() != nil {
+							for _, l := range *al.Referrers() {
+								if ld, ok := l.(*ssa.UnOp); ok {
+									walk(ld, depth+1, anchor)
+								}
+							}
+						}
+					}
+				}
+			}
+			walk(ec, 0, nil)
+			for _, uc := range uses {
+				r.Counts["uses of an Elem() result"]++
+				method := strings.TrimPrefix(an.CallName(&uc.Call), "(reflect.Value).")
+				construct := describe(p, x) + ".Elem()." + method + "()"
+				recv := uc.Call.Args[0]
+				pred := func(cond ssa.Value, taken bool) bool {
+					c := an.CallOf(cond)
+					if c == nil || len(c.Args) != 1 {
+						return false
+					}
+					switch an.CallName(c) {
+					case "(reflect.Value).IsNil":
+						// !x.IsNil() before the Elem()
+						return !taken && (c.Args[0] == x || sameRV(c.Args[0], x))
+					case "(reflect.Value).IsValid":
+						return taken && (c.Args[0] == recv || c.Args[0] == ssa.Value(ec) || sameRV(c.Args[0], recv))
+					}
+					return false
+				}
+				switch {
+				case an.AllPathsGuarded(uc.Block(), pred) || an.AllPathsGuarded(ec.Block(), pred) || anchorOf[uc] != nil && edgeGuarded(anchorOf[uc], pred):
+					r.OK(name, construct, an.InstrPos(uc), "the pointer or interface was found non-nil, or the result valid, on every path")
+				case kindGuarded(uc, recv):
+					r.OK(name, construct, an.InstrPos(uc), "dominated by a Kind() test of the result (the zero Value has Kind Invalid)")
+				default:
+					r.Bad(name, construct, an.InstrPos(uc), fmt.Sprintf("%s: Elem() of a nil pointer or nil interface is the zero Value, and %s on it panics; nothing establishes that %s is not nil (IsNil) or that the result is valid (IsValid)", an.FuncName(fn), method, describe(p, x)))
+				}
+			}
+		})
+	}
+	r.Floor("uses of an Elem() result", 2)
+}
+
+// edgeGuarded: every path to the end of block b is guarded - including by b's own branch when b ends
+// in an If whose taken edge leads on (the join is one of its successors).
+func edgeGuarded(b *ssa.BasicBlock, pred func(cond ssa.Value, taken bool) bool) bool {
+	if an.AllPathsGuarded(b, pred) {
+		return true
+	}
+	if ifi, ok := b.Instrs[len(b.Instrs)-1].(*ssa.If); ok && len(b.Succs) == 2 {
+		// a test in the arriving block itself: `if !v.IsValid() { return }` falls through to the join
+		for i, s := range b.Succs {
+			_ = s
+			if pred(ifi.Cond, i == 0) {
+				// the other successor must not lead to the join: conservatively require it to end in a return
+				other := b.Succs[1-i]
+				if _, isRet := other.Instrs[len(other.Instrs)-1].(*ssa.Return); isRet {
+					return true
+				}
+			}
+		}
+	}
+	return false
 }
